@@ -114,16 +114,24 @@ def gen(d, tier):
             tree = world.side[s]
             cands = [("delete", f) for f in tree.files()] + [("rmtree", g) for g in tree.dirs() if g and tree.subtree(g)] + \
                     [("delete", g) for g in tree.dirs() if g and not tree.subtree(g)]
-            cands = [c for c in cands if world.hazard(s, *c) is None]
+            # a folder leaving the root is one rename event: same isolation rule as a folder rename
+            cands = [c for c in cands if world.hazard(s, *c) is None and
+                     (not tree.is_dir(c[1]) or world.hazard(s, "rename", c[1], "/moved-out") is None)]
             if not cands:
                 continue
             op, p = d.choice(cands)
+            if tree.is_dir(p):
+                world.win.dirmoves.append((s, p, p))
             dst = d.choice((roots[s] + "X", roots[s] + ".bak", "/other")) + "/" + fresh()
             if tree.is_dir(p):
                 outside[s][dst] = ("dir", {q[len(p):]: tree.t[q] for q in tree.subtree(p)})
             else:
                 outside[s][dst] = tree.t[p]
+            gone = {p} | set(tree.subtree(p))
             world.apply(s, op, p)
+            # DIRMOVE_TOMB (KF-11 family): a moved-out object leaves a tombstone on BOTH sides' path-style indexes
+            world.ever_deleted[0] |= gone
+            world.ever_deleted[1] |= gone
             acts.append(["u", s, "rename", p, "!" + dst])
             done += 1
         elif k == "outside":
